@@ -2,6 +2,7 @@ package main
 
 import (
 	"fmt"
+	"os"
 	"regexp"
 	"go/types"
 	"sort"
@@ -139,6 +140,8 @@ type Obligation struct {
 	File    string
 	vc      *VC
 	Block   int
+	Scope   int
+	Extra   []int // additional scopes visible to this obligation
 }
 
 // ---------------------------------------------------------------------------
@@ -191,6 +194,8 @@ type Frame struct {
 	modTargets []modTarget
 	decEntry string
 	ordinal map[ssa.Instruction]int
+	frameAssumed bool // frame obligations are assumed (proved by another contract of the same function)
+	callLines [2]int // lines holding the assumed postconditions of the most recent call
 	callPre *State // state just before the most recent call (at(call, e) in 'after call' ghost blocks)
 }
 
@@ -237,6 +242,13 @@ type VC struct {
 	ssubSeen map[string]bool
 	smokes   []*Obligation
 	named    map[string]string
+	entryAlloc string
+	lineScope []int // 0 = visible to every later obligation; n = only to obligations of ghost block n
+	emitScope int
+	extraScopes []int
+	uniqScope int
+	curScope  int
+	nextScope int
 	lineTag  []int // block index (top frame) in which each line was emitted; -1 = unconditional
 	curBlock int
 	anc      map[int]map[int]bool // block -> set of ancestor blocks (incl. itself)
@@ -254,6 +266,11 @@ func newVC(P *Prog, unit string, cur *types.Package) *VC {
 func (vc *VC) emit(l string) {
 	vc.lines = append(vc.lines, l)
 	vc.lineTag = append(vc.lineTag, vc.curBlock)
+	sc := vc.emitScope
+	if !strings.HasPrefix(l, "(assert") {
+		sc = 0
+	}
+	vc.lineScope = append(vc.lineScope, sc)
 }
 
 func (vc *VC) fresh(prefix, sort string) string {
@@ -328,7 +345,7 @@ func (vc *VC) oblige(name, kind string, props []string, guard, goal, src string)
 			qgoal = "(or " + p + " " + goal + ")"
 		}
 	}
-	o := &Obligation{Name: name, Func: vc.unit, Kind: kind, Props: props, Prefix: len(vc.lines), Guard: guard, Goal: qgoal, Src: src, vc: vc, Block: vc.curBlock}
+	o := &Obligation{Name: name, Func: vc.unit, Kind: kind, Props: props, Prefix: len(vc.lines), Guard: guard, Goal: qgoal, Src: src, vc: vc, Block: vc.curBlock, Scope: vc.curScope + 1, Extra: append([]int{}, vc.extraScopes...)}
 	vc.obls = append(vc.obls, o)
 	if norm != "" {
 		if _, ok := vc.named[norm]; !ok {
@@ -417,7 +434,14 @@ func (vc *VC) heap(st *State, name string) string {
 	}
 	if !found {
 		vc.epochDecls = append(vc.epochDecls, decl)
-		vc.heapTypeAxiom(name, n, true)
+		if st.epoch == 0 && vc.entryAlloc != "" && os.Getenv("GOVC_NOALLOCAX") == "" {
+			save := vc.curBlock
+			vc.curBlock = -1
+			vc.heapTypeAxiom(name, n, false, vc.entryAlloc)
+			vc.curBlock = save
+		} else {
+			vc.heapTypeAxiom(name, n, true, "")
+		}
 	}
 	st.heaps[name] = n
 	return n
@@ -431,13 +455,24 @@ func (vc *VC) setHeap(st *State, name, term string) {
 func (vc *VC) havocHeap(st *State, name string) string {
 	n := vc.fresh(name, vc.heapSort[name])
 	st.heaps[name] = n
-	vc.heapTypeAxiom(name, n, false)
+	vc.heapTypeAxiom(name, n, false, "")
 	return n
 }
 
 // heapTypeAxiom: every value stored in a heap satisfies the invariants of its Go type
 // (slice lengths are non-negative and bounded by the capacity)
-func (vc *VC) heapTypeAxiom(name, term string, prelude bool) {
+func (vc *VC) heapTypeAxiom(name, term string, prelude bool, allocTerm string) {
+	if strings.HasPrefix(name, "M:") {
+		// the number of keys of a map is never negative
+		ms := strings.TrimSuffix(strings.TrimPrefix(vc.heapSort[name], "(Array Int "), ")")
+		ax := "(assert (forall ((r Int)) (! (>= (" + ms + "__card (select " + term + " r)) 0) :pattern ((select " + term + " r)))))"
+		if prelude {
+			vc.epochDecls = append(vc.epochDecls, ax)
+		} else {
+			vc.emit(ax)
+		}
+		return
+	}
 	t := vc.heapElemType[name]
 	if t == nil {
 		return
@@ -451,12 +486,18 @@ func (vc *VC) heapTypeAxiom(name, term string, prelude bool) {
 		return
 	}
 	st := &State{alloc: "0"}
+	if allocTerm != "" {
+		st.alloc = allocTerm
+	}
 	var fs []string
 	for _, f := range vc.typeFacts(st, t, sel, 0) {
 		if strings.Contains(f, "s_len") || strings.Contains(f, "s_cap") {
 			if !strings.Contains(f, " 0)") || strings.Contains(f, "(<= 0 (s_len") {
 				fs = append(fs, f)
 			}
+		} else if allocTerm != "" && strings.HasPrefix(f, "(< ") && strings.HasSuffix(f, " "+allocTerm+")") {
+			// every reference stored in memory is allocated
+			fs = append(fs, f)
 		}
 	}
 	if len(fs) == 0 {
